@@ -1479,8 +1479,8 @@ fn main() {
         }
     }
     let n_corpus = cases.len();
-    let n_scen = opts.tier.pick(230u64, 6000);
-    let n_sched = opts.tier.pick(4u64, 16);
+    let n_scen = opts.tier.pick(230u64, 2600);
+    let n_sched = opts.tier.pick(4u64, 10);
     for i in 0..n_scen {
         let mut r = Rng::for_case(opts.seed ^ 0xC05, i);
         let sc = gen_scenario(&mut r);
